@@ -86,7 +86,7 @@ def run_tasks(check_name, tasks, workers, task_timeout=300, init_args=(),
             raise HarnessError('batch wall cap %ss exceeded' % batch_timeout)
     except BaseException:
         pool.shutdown(wait=False, cancel_futures=True)
-        for p in list(getattr(pool, '_processes', {}).values()):
+        for p in list((getattr(pool, '_processes', None) or {}).values()):
             try:
                 p.kill()
             except Exception:
